@@ -25,6 +25,7 @@ STRESS = [
     ("inl_goto", "unsigned char a,b,c; inline void q() { if (a) goto out; b++; out: c++; }\nvoid main() { q(); q(); }"),
     ("cont_in_switch", "unsigned char a,b,c; void main() { do { switch (a) { case 1: continue; default: a++; } b--; } while (b); }"),
     ("cont_in_switch_w", "unsigned char a,b,c; void main() { while (b) { switch (a) { case 1: b--; continue; default: a++; } b--; } for (c = 0; c < 3; c++) { switch (a) { case 0: continue; } a--; } }"),
+    ("cont_if_in_switch", "unsigned char a,b,c; void main() { do { switch (a) { case 1: if (b) continue; c++; break; default: a++; } b--; } while (b); while (c) { switch (a) { case 2: if (b) break; if (a) continue; } c--; } }"),
     ("assign_const_array", "const char arr[2] = {1, 2}; unsigned char a; void main() { arr = a; }"),
     ("constptr_cross", "char c; char *const P = 0xF0; void main() { c = P[32]; P[20] = c; c = P[2]; }"),
     ("inl_ret", "unsigned char a,b,c; inline char r(char x) { while (x) { if (x == b) return 3; x--; } return 0; }\nvoid main() { a = r(c); b = r(a) + 1; }"),
